@@ -6,7 +6,7 @@
    (child scale not above the parent's), and accepts the tree the repaired code builds, on which the
    query is complete. *)
 From Coq Require Import List ZArith Bool.
-From TK Require Import Knn_Spec CoverTree_Model.
+From TK Require Import Knn_Spec Knn_CoverSel_Model CoverTree_Model.
 Import ListNotations.
 Local Open Scope Z_scope.
 
@@ -26,9 +26,55 @@ Definition f25_new_tree : ctree :=
 Lemma ct_scale100_refuted_lemma :
   metric_b f25_d 4 = true /\
   ct_holds_b 4 f25_old_tree = true /\ ct_inv_b f25_d f25_old_tree = false /\
-  ct_query f25_d 2 no_audit (ct_fuel f25_old_tree) f25_old_tree
+  ct_query true f25_d 2 no_audit (ct_fuel f25_old_tree) f25_old_tree
     = Some ([(3, [3]); (2, [0]); (1, [0]); (0, [0])], true) /\
   ct_inv_b f25_d f25_new_tree = true /\
-  ct_query f25_d 2 (valid_b f25_d (leaf_points f25_new_tree) 2) (ct_fuel f25_new_tree) f25_new_tree
+  ct_query false f25_d 2 (valid_b f25_d (leaf_points f25_new_tree) 2) (ct_fuel f25_new_tree) f25_new_tree
     = Some ([(3, [3; 2; 1]); (1, [2; 1]); (2, [2; 1]); (0, [0; 2; 1])], true).
 Proof. vm_compute. repeat split; reflexivity. Qed.
+
+(* Regression theorem for defect F46 (found by agent c02b with a structured hunt; upstream bug of the batch query):
+   copy_zero_set / copy_cover_sets pruned with upper_bound[0] + ONE query_chi->max_dist where descend uses two.
+   Eleven points in the plane under the L1 metric (an exact integer metric); f46_tree is the tree the real
+   batch_create builds for them (dumped by harness/c02.cpp; it satisfies every checked invariant).  On it the
+   model of the OLD query (oc = true), called with internal_k = 3, returns for sample 4 = (37,21) the candidate list
+   [6;2;0;10;4] - exactly what the real k_nearest_neighbor returned - which misses sample 7 = (38,41), the second
+   nearest other sample (distance 21; sample 0 at distance 22 is returned instead): the list is not complete and
+   the selected row is not a k-nearest set, although the bound was valid at every read (audit flag true).  The
+   repaired query (oc = false) returns complete lists for every sample of the same tree. *)
+Definition f46_xs : list Z := [44; 98; 49; 96; 37; 69; 58; 38; 33; 6; 43].
+Definition f46_ys : list Z := [6; 12; 31; 8; 21; 45; 22; 41; 42; 32; 21].
+Definition f46_d : dist := fun i j =>
+  Z.abs (nth (Z.to_nat i) f46_xs 0 - nth (Z.to_nat j) f46_xs 0) +
+  Z.abs (nth (Z.to_nat i) f46_ys 0 - nth (Z.to_nat j) f46_ys 0).
+Definition f46_tree : ctree :=
+  CN 0 64 0 0 [
+    CN 0 64 0 1 [
+      CN 0 30 0 3 [
+        CN 0 22 0 5 [CN 0 0 0 100 []; CN 10 6 16 9 [CN 10 0 0 100 []; CN 4 0 6 100 []]];
+        CN 6 18 30 4 [CN 6 0 0 100 []; CN 2 0 18 100 []]];
+      CN 8 39 47 2 [CN 8 6 0 9 [CN 8 0 0 100 []; CN 7 0 6 100 []]; CN 9 0 37 100 []; CN 5 0 39 100 []]];
+    CN 3 6 54 9 [CN 3 0 0 100 []; CN 1 0 6 100 []]].
+
+Definition all_rows_complete (d : dist) (N k : nat) (res : option (list row * bool)) : bool :=
+  match res with
+  | Some (rows, true) => forallb (fun r => cand_complete_b d N (fst r) k (snd r)) rows
+  | _ => false
+  end.
+
+Lemma ct_copy_radius_refuted_lemma :
+  metric_b f46_d 11 = true /\ ct_inv_b f46_d f46_tree = true /\ ct_holds_b 11 f46_tree = true /\
+  leaf100_b f46_tree = true /\
+  (exists rows, ct_query true f46_d 3 (valid_b f46_d (leaf_points f46_tree) 3) (ct_fuel f46_tree) f46_tree
+                = Some (rows, true) /\ In (4, [6; 2; 0; 10; 4]) rows) /\
+  cand_complete_b f46_d 11 4 2 [6; 2; 0; 10; 4] = false /\
+  ct_select_fixed f46_d (4 :: [6; 2; 0; 10; 4]) 2 = Some [10; 0] /\
+  is_knn_b f46_d 11 4 2 [10; 0] = false /\ is_knn_b f46_d 11 4 2 [10; 7] = true /\
+  all_rows_complete f46_d 11 2
+    (ct_query false f46_d 3 (valid_b f46_d (leaf_points f46_tree) 3) (ct_fuel f46_tree) f46_tree) = true.
+Proof.
+  split; [vm_compute; reflexivity|]. split; [vm_compute; reflexivity|]. split; [vm_compute; reflexivity|].
+  split; [vm_compute; reflexivity|]. split.
+  - eexists. split; [vm_compute; reflexivity|]. cbn [In]. tauto.
+  - repeat split; vm_compute; reflexivity.
+Qed.
